@@ -31,8 +31,8 @@ impl ParseBuffer {
     pub fn parse<T: Parse>(&self) -> (r: syn::Result<T>) { unimplemented!() }
 }
 
-#[verifier::external_body]
-pub struct GroupDeterminer { _p: () }
+// `GroupDeterminer`: opaque in the modules that only pass it around (raw unit `opaque_group_determiner`), the real struct
+// minus its fn-pointer union (A11) in module `parse`
 
 pub struct Empty { _p: () }
 impl Parse for Empty {}
